@@ -182,7 +182,9 @@ func ruleSentinelPropagation(p *Program, r *Reporter, rule string, chain []*ssa.
 // errorReturnedWhenNonNilFlag: like errorReturnedWhenNonNil, but if the callee returns a non-nil error only
 // together with a true first (bool) result, the caller's false-branch of that flag is exempt.
 func errorReturnedWhenNonNilFlag(e ssa.Value, c *ssa.Call, callee *ssa.Function) (bool, string) {
+	strictErrorIdentity = true
 	ok, why := errorReturnedWhenNonNil(e)
+	strictErrorIdentity = false
 	if ok {
 		return ok, why
 	}
